@@ -26,6 +26,14 @@ impl<T: Send + Sync> Drop for ConIterOfVec<T> {
         if current <= self.vec_len {
             let _remaining_vec_to_be_dropped = unsafe { self.split_off_right(current) };
         }
+
+        // release the buffer of the consumed vector:
+        // all of its elements have either been moved out or dropped above
+        unsafe {
+            let vec = &mut *self.vec.get();
+            vec.set_len(0);
+            ManuallyDrop::drop(vec);
+        }
     }
 }
 
